@@ -66,7 +66,11 @@ func VerifC19Catalog(h *verifh.H) {
 	// the dataset under test has an ordinary name or one with characters that need escaping in a URI
 	nameA := []string{"a", "a b/c"}[h.Choice("nameA", 2)]
 	nameC := []string{"c", "c (old)"}[h.Choice("nameC", 2)]
-	_, err := hub.Dsm.CreateDataset(nameA, nil)
+	var cfgA *CreateDatasetConfig
+	if h.Param("publicNs", 0) == 1 && h.Choice("publicNs", 2) == 1 {
+		cfgA = &CreateDatasetConfig{PublicNamespaces: []string{"http://example.com/pub/"}}
+	}
+	_, err := hub.Dsm.CreateDataset(nameA, cfgA)
 	h.Assert(err == nil, "create a")
 	_, err = hub.Dsm.CreateDataset("b", nil)
 	h.Assert(err == nil, "create b")
@@ -82,9 +86,14 @@ func VerifC19Catalog(h *verifh.H) {
 	vCatalogCheck(h, hub, names, gone, "initial")
 	nops := h.Param("ops", 2)
 	for k := 0; k < nops; k++ {
-		op := h.Choice("op", 6)
+		op := h.Choice("op", 7)
+		if h.Param("lifecycleOnly", 0) == 1 {
+			h.Assume(op == 3 || op == 5 || op == 6) // delete, re-create, restart
+		}
 		when := "op" + itoa(k) + "=" + itoa(op)
 		switch op {
+		case 6: // the hub restarts: the catalogue is rebuilt from what is stored
+			hub = hub.Restart()
 		case 0, 1: // batch of one or two entities (ids may repeat inside the batch and across batches)
 			if cur == "" {
 				h.Assume(false)
